@@ -518,7 +518,11 @@ def montecarlo(prog, rep):
                     okv = okc and v == ("bin", "/", ("call", G("numpy.sum"), (CMP("<=", smp[0], val),), ()), n_)
                 else:
                     okv = okc and v == ("call", G("numpy.quantile"), (smp[0], val), ())
-                ok = okv and idx == i and base == ("call", G("numpy.empty_like"), (P(first),), ())
+                from .buffers import float_buffer
+                fb = float_buffer(base)
+                ok = okv and idx == i and fb is not None
+                rep.check(bool(fb), "C16.mc", f"{q}:float-buffer", fn.where(st), "the result buffer is a float array",
+                          f"the estimates are stored into {show(base)[:60]}, which takes the dtype of the argument: for integer-valued {first} every probability / quantile is truncated to an integer")
                 why = (f"point i must be estimated from conditional_sample(n, dim, given_i, random_state=random_state) of the SAME i and stored at index i "
                        f"({'fraction of the sample <= x_i' if red == 'cdf' else 'np.quantile(sample, p_i)'}); found [{show(idx)[:30]}] = {show(v)[:160]}")
         rep.check(ok, "C16.mc", f"{q}:per-point", fn.where(), f"{'(sample <= x_i).sum()/n' if red == 'cdf' else 'quantile(sample, p_i)'} with sample conditioned on given_i, stored at i", why)
